@@ -1,11 +1,11 @@
 /-
   Model/Props.lean — C02. Mirrors the `Props` impls of /repo (paths relative to /repo):
     core/src/props.rs   trait defaults `get` (:57-72), `pull` (:81-83), `is_unique` (:90-92);
-                        `&P` (:129-150), `Option<P>` (:152-162), `Box<P>` (:165-172), `Arc<P>` (:175-182),
-                        `(K, V)` (:184-195), `[P]` (:197-209), `[T; N]` (:211-221), `Empty` (:223-238),
-                        `And<A, B>` (:240-254), `Dedup<P>` (:275-310), `BTreeMap` (:312-333),
-                        `HashMap` (:400-421), `AsMap<P>` (:455-474), `dyn ErasedProps` (:593-609)
-    src/macro_hooks.rs  `__PrivateMacroProps` (:1021-1057) — the collection `emit::props!`, `emit::emit!`,
+                        `&P` (:128-147), `Option<P>` (:149-159), `Box<P>` (:162-169), `Arc<P>` (:172-179),
+                        `(K, V)` (:181-192), `[P]` (:194-205), `[T; N]` (:207-217), `Empty` (:219-234),
+                        `And<A, B>` (:236-250), `Dedup<P>` (:273-306), `BTreeMap` (:308-331),
+                        `HashMap` (:396-419), `AsMap<P>` (:457-476), `dyn ErasedProps` (:588-620)
+    src/macro_hooks.rs  `__PrivateMacroProps` (:1021-1060) — the collection `emit::props!`, `emit::emit!`,
                         `#[emit::span]` … build; macros/src/props.rs (:74-84, :165-181) sorts the fields by
                         IDENTIFIER in a `BTreeMap<String, KeyValue>`, `#[cfg]` removes array elements,
                         `#[emit::optional]` yields `None` values, `#[emit::key(..)]` (macros/src/key.rs:75-91)
@@ -76,22 +76,22 @@ inductive P where
 
 /-- `is_unique`: the trait default is `false` (props.rs:90-92); overrides cited per arm. -/
 def isUnique : P → Bool
-  | .pair _ _ => true          -- :192-194
+  | .pair _ _ => true          -- :189-191
   | .slice _ => false          -- default
   | .arr _ => false            -- default
-  | .btree _ => true           -- :330-332
-  | .hash _ => true            -- :418-420
+  | .btree _ => true           -- :328-330
+  | .hash _ => true            -- :416-418
   | .optNone => false          -- default (Option<P> overrides nothing but for_each)
   | .optSome _ => false
   | .and _ _ => false          -- default
-  | .ref p => isUnique p       -- :147-149
+  | .ref p => isUnique p       -- :144-146
   | .boxed _ => false          -- default (Box<P> overrides nothing but for_each)
   | .shared _ => false         -- default (Arc<P> likewise)
-  | .erased p => isUnique p    -- :606-608 → dispatch_is_unique :587-589
-  | .asMap p => isUnique p     -- :471-473
-  | .dedup _ => true           -- :307-309
-  | .empty => true             -- :235-237
-  | .macro _ => true           -- macro_hooks.rs:1054-1056
+  | .erased p => isUnique p    -- :617-619 → dispatch_is_unique :600-602
+  | .asMap p => isUnique p     -- :473-475
+  | .dedup _ => true           -- :303-305
+  | .empty => true             -- :231-233
+  | .macro _ => true           -- macro_hooks.rs:1057-1059
   | .extentPoint _ => false    -- default
   | .extentRange _ _ => false  -- default
   | .spanCtxt _ _ _ => false   -- default
@@ -100,7 +100,7 @@ def isUnique : P → Bool
   | .frame _ => true           -- thread_local_ctxt.rs:115-117
   | .slot _ => false           -- default
 
-/-- What `__PrivateMacroProps::for_each` yields: array order, `None` values skipped (macro_hooks.rs:1031-1043). -/
+/-- What `__PrivateMacroProps::for_each` yields: array order, `None` values skipped (macro_hooks.rs:1030-1043). -/
 def macroEnum : List (String × Option Val) → List (String × Val)
   | [] => []
   | (k, some v) :: rest => (k, v) :: macroEnum rest
@@ -176,20 +176,20 @@ abbrev Visitor (σ : Type) := σ → String → Val → σ × Bool
 mutual
 /-- `Props::for_each`: returns the visitor's final state and whether the result is `ControlFlow::Break`. -/
 def forEach : {σ : Type} → P → Visitor σ → σ → σ × Bool
-  | _, .pair k v, f, s => f s k v                                        -- :185-190
-  | _, .slice ps, f, s => forEachList ps f s                             -- :198-208  `p.for_each(&mut for_each)?`
-  | _, .arr ps, f, s => forEachList ps f s                               -- :215-220
-  | _, .btree es, f, s => foldUntil (fun s kv => f s kv.1 kv.2) s es     -- :317-326  `for_each(k, v)?`
-  | _, .hash es, f, s => foldUntil (fun s kv => f s kv.1 kv.2) s es      -- :405-414
-  | _, .optNone, _, s => (s, false)                                      -- :159  `None => Continue(())`
-  | _, .optSome p, f, s => forEach p f s                                 -- :158
-  | _, .and a b, f, s => andThen (forEach a f s) (fun s' => forEach b f s')   -- :241-247
-  | _, .ref p, f, s => forEach p f s                                     -- :130-135
-  | _, .boxed p, f, s => forEach p f s                                   -- :166-171
-  | _, .shared p, f, s => forEach p f s                                  -- :176-181
-  | _, .erased p, f, s => forEach p f s                                  -- :594-599 → :575-580
-  | _, .asMap p, f, s => forEach p f s                                   -- :456-461
-  | _, .dedup p, f, s =>                                                 -- :276-299
+  | _, .pair k v, f, s => f s k v                                        -- :182-187
+  | _, .slice ps, f, s => forEachList ps f s                             -- :195-204  `p.for_each(&mut for_each)?`
+  | _, .arr ps, f, s => forEachList ps f s                               -- :211-216
+  | _, .btree es, f, s => foldUntil (fun s kv => f s kv.1 kv.2) s es     -- :313-322  `for_each(k, v)?`
+  | _, .hash es, f, s => foldUntil (fun s kv => f s kv.1 kv.2) s es      -- :401-410
+  | _, .optNone, _, s => (s, false)                                      -- :156  `None => Continue(())`
+  | _, .optSome p, f, s => forEach p f s                                 -- :155
+  | _, .and a b, f, s => andThen (forEach a f s) (fun s' => forEach b f s')   -- :237-243
+  | _, .ref p, f, s => forEach p f s                                     -- :129-134
+  | _, .boxed p, f, s => forEach p f s                                   -- :163-168
+  | _, .shared p, f, s => forEach p f s                                  -- :173-178
+  | _, .erased p, f, s => forEach p f s                                  -- :606-611 → :589-594
+  | _, .asMap p, f, s => forEach p f s                                   -- :458-463
+  | _, .dedup p, f, s =>                                                 -- :274-297
     if isUnique p then forEach p f s                                     --   "already unique" short-cut
     else
       -- inner pass: every pair goes into `seen.entry(key).or_insert(value)`; its own visitor never breaks and
@@ -197,8 +197,8 @@ def forEach : {σ : Type} → P → Visitor σ → σ → σ × Bool
       let seen := (forEach p (fun (m : List (String × Val)) k v => (insertIfAbsent compare m k v, false)) []).1
       -- outer pass: `for (key, value) in seen { for_each(key, value)?; } Continue(())`
       foldUntil (fun s kv => f s kv.1 kv.2) s seen
-  | _, .empty, _, s => (s, false)                                        -- :224-229
-  | _, .macro es, f, s =>                                                -- macro_hooks.rs:1031-1043
+  | _, .empty, _, s => (s, false)                                        -- :220-225
+  | _, .macro es, f, s =>                                                -- macro_hooks.rs:1030-1043
     foldUntil (fun s kv => match kv.2 with
                            | some v => f s kv.1 v
                            | none => (s, false)) s es
@@ -236,7 +236,7 @@ def btreeGet : List (String × Val) → String → Option Val
 /-- `HashMap::get`: the value of the entry whose key is equal (at most one in a hash map). -/
 def hashGet (es : List (String × Val)) (q : String) : Option Val := lookupFirst q es
 
-/-- `__PrivateMacroProps::get` (macro_hooks.rs:1045-1052, after the D1 fix): the first array element with the
+/-- `__PrivateMacroProps::get` (macro_hooks.rs:1045-1055, after the D1 fix): the first array element with the
     key that carries a value. -/
 def macroGet : List (String × Option Val) → String → Option Val
   | [], _ => none
@@ -248,21 +248,21 @@ def get : P → String → Option Val
   | .pair k v, q => scan (.pair k v) q            -- default
   | .slice ps, q => scan (.slice ps) q            -- default
   | .arr ps, q => scan (.arr ps) q                -- default
-  | .btree es, q => btreeGet es q                 -- :326-328
-  | .hash es, q => hashGet es q                   -- :414-416
+  | .btree es, q => btreeGet es q                 -- :324-326
+  | .hash es, q => hashGet es q                   -- :412-414
   | .optNone, q => scan .optNone q                -- default
   | .optSome p, q => scan (.optSome p) q          -- default
-  | .and a b, q =>                                -- :249-253  `left.get(key).or_else(|| right.get(key))`
+  | .and a b, q =>                                -- :245-249  `left.get(key).or_else(|| right.get(key))`
     match get a q with
     | some v => some v
     | none => get b q
-  | .ref p, q => get p q                          -- :137-139
+  | .ref p, q => get p q                          -- :136-138
   | .boxed p, q => scan (.boxed p) q              -- default
   | .shared p, q => scan (.shared p) q            -- default
-  | .erased p, q => get p q                       -- :601-603 → dispatch_get :582-584
-  | .asMap p, q => get p q                        -- :463-465
-  | .dedup p, q => get p q                        -- :301-303
-  | .empty, _ => none                             -- :231-233
+  | .erased p, q => get p q                       -- :613-615 → dispatch_get :596-598
+  | .asMap p, q => get p q                        -- :465-467
+  | .dedup p, q => get p q                        -- :299-301
+  | .empty, _ => none                             -- :227-229
   | .macro es, q => macroGet es q
   | .extentPoint ts, q => scan (.extentPoint ts) q                  -- default
   | .extentRange a b, q => scan (.extentRange a b) q                -- default
@@ -272,7 +272,7 @@ def get : P → String → Option Val
   | .frame es, q => hashGet es q                                    -- thread_local_ctxt.rs:111-113
   | .slot p, q => scan (.slot p) q                                  -- default
 
-/-- `Props::pull::<i64, _>` — default `get(key).and_then(cast)` (:81-83); `&P` (:141-143) and `AsMap` (:467-469)
+/-- `Props::pull::<i64, _>` — default `get(key).and_then(cast)` (:81-83); `&P` (:140-142) and `AsMap` (:469-471)
     forward to the inner `pull`. -/
 def pullInt : P → String → Option Int
   | .ref p, q => pullInt p q
